@@ -85,43 +85,67 @@ func InitProcess(scratch string) {
 }
 
 // Points counts verifPoint hits (progress counters and schedule control).
+//
+// The counters must not synchronise the wallet's goroutines with each other: a mutex shared by the
+// follower and the worker at every yield point would add happens-before edges that production code
+// does not have and hide data races from the race detector. Every known point has its own atomic
+// counter (a point is hit by one wallet goroutine only); the callback is read through an atomic
+// pointer that only the harness writes.
 type Points struct {
-	mu     sync.Mutex
-	counts map[string]int64
-	loop   int64
-	// Fn, if set, is called at every point (after counting); it may sleep or block.
-	Fn func(name string)
+	known [len(pointNames)]int64
+	loop  int64
+	fn    atomic.Value // func(string) wrapper
+	mu    sync.Mutex   // unknown names only
+	other map[string]int64
+}
+
+var pointNames = [...]string{"handle.loop", "handle.suspended", "block.committed", "worker.loop", "worker.task", "import.begin", "remove.round",
+	"suspend.before", "suspend.after", "resume.before", "resume.after", "stop.quitclosed", "stop.joined"}
+
+type pointFn struct{ f func(string) }
+
+func pointIndex(name string) int {
+	for i, n := range pointNames {
+		if n == name {
+			return i
+		}
+	}
+	return -1
 }
 
 func (p *Points) hit(name string) {
 	if name == "handle.loop" {
 		atomic.AddInt64(&p.loop, 1)
 	}
-	p.mu.Lock()
-	if p.counts == nil {
-		p.counts = map[string]int64{}
+	if i := pointIndex(name); i >= 0 {
+		atomic.AddInt64(&p.known[i], 1)
+	} else {
+		p.mu.Lock()
+		if p.other == nil {
+			p.other = map[string]int64{}
+		}
+		p.other[name]++
+		p.mu.Unlock()
 	}
-	p.counts[name]++
-	fn := p.Fn
-	p.mu.Unlock()
-	if fn != nil {
-		fn(name)
+	if v := p.fn.Load(); v != nil {
+		if f := v.(pointFn).f; f != nil {
+			f(name)
+		}
 	}
 }
 
 func (p *Points) Count(name string) int64 {
+	if i := pointIndex(name); i >= 0 {
+		return atomic.LoadInt64(&p.known[i])
+	}
 	p.mu.Lock()
 	defer p.mu.Unlock()
-	return p.counts[name]
+	return p.other[name]
 }
 
 func (p *Points) Loop() int64 { return atomic.LoadInt64(&p.loop) }
 
-func (p *Points) SetFn(fn func(string)) {
-	p.mu.Lock()
-	p.Fn = fn
-	p.mu.Unlock()
-}
+func (p *Points) SetFn(fn func(string)) { p.fn.Store(pointFn{fn}) }
 
 // Wallet is one running wallet instance (WalletManager + API server) on a data directory.
 type Wallet struct {
